@@ -552,6 +552,42 @@ fn check_bytes(cx: &Cx, bytes: &[u8], rep: &mut Report) {
             return;
         }
     };
+    // the parser is generic over byte iterators: the result must not depend on how precise the
+    // iterator's size_hint is (slice iterators are exact; filter / from_fn / flat_map are not)
+    if bytes.contains(&0x01) {
+        let first_err = |it: &mut dyn Iterator<Item = u8>| -> String {
+            let mut out = vec![];
+            for r in asm::from_bytes(it).take(bytes.len() + 2) {
+                match r {
+                    Ok(o) => out.push(format!("{o:?}")),
+                    Err(e) => {
+                        out.push(format!("Err({e:?})"));
+                        break;
+                    }
+                }
+            }
+            out.join(",")
+        };
+        let base = catch(|| first_err(&mut bytes.iter().copied()));
+        let variants: Vec<(&str, Result<String, (String, String)>)> = vec![
+            ("filter", catch(|| first_err(&mut bytes.iter().copied().filter(|_| true)))),
+            ("from_fn", catch(|| {
+                let mut i = 0;
+                first_err(&mut std::iter::from_fn(|| {
+                    i += 1;
+                    bytes.get(i - 1).copied()
+                }))
+            })),
+            ("flat_map", catch(|| first_err(&mut bytes.chunks(3).flat_map(|c| c.to_vec())))),
+        ];
+        for (kind, v) in variants {
+            if format!("{v:?}") != format!("{base:?}") {
+                put(rep, Signature::new("C13", "roundtrip.bytes").feat("iterator_with_inexact_size_hint").feat(format!("kind:{kind}")), || {
+                    (case(), format!("{base:?}"), format!("{v:?}"), format!("#[test]\nfn replay() {{\n    let bytes = hex::decode(\"{}\").unwrap();\n    let a: Vec<_> = essential_asm::from_bytes(bytes.iter().copied()).collect();\n    let b: Vec<_> = essential_asm::from_bytes(bytes.iter().copied().filter(|_| true)).collect();\n    assert_eq!(format!(\"{{a:?}}\"), format!(\"{{b:?}}\"));\n}}\n", hex::encode(bytes)))
+                });
+            }
+        }
+    }
     let dbg: Vec<String> = ops.iter().map(|o| format!("{o:?}")).collect();
     let got_render = end.render(&dbg);
     let ok = end == End::Done;
